@@ -245,7 +245,9 @@ func specEvent(text, id string) sse.Event {
 }
 
 var e2ePayloads = []string{"x", "hello world", "a\nb", "a\r\nb\rc", "", "\n", "é日本", "data: y", "id: 99", ": not a comment", "  spaced  ",
-	"retry: 5", "event: z", "\x00nul", "a:b:c", strings.Repeat("long ", 40), "{\"k\":[1,2,3]}", "trailing\n", "\nleading"}
+	"retry: 5", "event: z", "\x00nul", "a:b:c", strings.Repeat("long ", 40), "{\"k\":[1,2,3]}", "trailing\n", "\nleading",
+	// lone CRs and no LF at all (a progress line): each CR ends a line
+	"10%\r55%\r100%", "x\rid: 1", "\r", "cr at the end\r"}
 
 // big: the message is padded so that its event is about as long as the client's initial scanner buffer (4096 bytes):
 // the buffer then ends inside the event's closing line breaks, or a byte either side of them
